@@ -51,6 +51,7 @@ static void fill_fp()
     reg<T>("frexp_e", [](const xsv_args* a) { B<T> x = ld<T>(a->in[0]); B<I> e; B<T> m = xs::frexp(x, e); (void)m; st<I>(a->out[0], e); });
     reg<T>("ldexp", [](const xsv_args* a) { B<T> x = ld<T>(a->in[0]); B<I> e = ld<I>(a->in[1]); st<T>(a->out[0], xs::ldexp(x, e)); });
     OP2("nextafter", xs::nextafter(x, y));
+    OP1K("ipow", xs::pow(x, k));
     // C08
     OP1("ceil", xs::ceil(x));
     OP1("floor", xs::floor(x));
